@@ -118,8 +118,53 @@ theorem balances_eq_projection (H : Bytes → Nat) (evs : List Ev) (hadm : Admis
     exact ⟨r, o, hr, ho, hmin, hinj _ r _ o hr ho (by rw [hs, hkey]), hx⟩
   · rintro ⟨r, o, hr, ho, hmin, hs, hx⟩
     exact ⟨r, o, hr, ho, hmin, by rw [hs, hkey], hx⟩
--- OPEN (optional strengthening): derive `hinj` from injectivity of `H` on the payloads in play alone; needs
--- the converse byte-level lemma `scriptForm s = some (i, p) → s = Addr.script ⟨i, p⟩`.
+
+/-- Converse of `script_of_address_has_its_key`: every script Script2Idx recognises is byte for byte the
+    standard scriptPubKey of the address (type, payload) it is indexed under, and the payload has that
+    type's length (20/20/20/32/32). So two different scripts share an index key only if the 64-bit hash
+    of two different payloads of the same type collides. -/
+theorem recognised_script_is_address_script (s : Bytes) (i : Nat) (p : Bytes) (h : scriptForm s = some (i, p)) :
+    s = Addr.script ⟨i, p⟩ ∧ i < 5 ∧ p.length = (if i < 3 then 20 else 32) :=
+  scriptForm_converse s i p h
+
+/-- Central theorem with the injectivity hypothesis reduced to the hash alone (closes the former OPEN item):
+    `hHinj` only asks that no payload `p` of an output currently in the set, recognised under `a`'s address
+    type, has `H p = H a.payload` unless `p = a.payload` (no 64-bit SipHash collision among the payloads
+    in play). The minimum may be any value including 0: with `min = 0` every unspent output paying to `a`
+    is listed, zero-valued ones too, and the record exists as long as one of them is unspent. -/
+theorem balances_eq_projection_hash_inj (H : Bytes → Nat) (evs : List Ev) (hadm : AdmissibleRun H State.init evs)
+    (a : Addr) (hv : a.idx < 5) (hl : a.payload.length = if a.idx < 3 then 20 else 32)
+    (hon : (run H State.init evs).on = true)
+    (hHinj : ∀ k r j o p, aget k (run H State.init evs).utxo = some r → outAt r.outs j = some o →
+      scriptForm o.script = some (a.idx, p) → H p = H a.payload → p = a.payload)
+    (hfit : sumValues (getAllUnspent H (run H State.init evs) a) < M64) :
+    let s := run H State.init evs
+    (getAllUnspent H s a).Nodup ∧
+    (∀ x, x ∈ getAllUnspent H s a ↔ Pays s.cfg.min s.utxo a x) ∧
+    total H s a = sumValues (getAllUnspent H s a) :=
+  balances_eq_projection H evs hadm a hv hl hon
+    (fun k r j o hr ho hk => hinj_of_payload_inj H a hv hl o (fun p hf hp => hHinj k r j o p hr ho hf hp) hk) hfit
+
+/-- The record of an address exists exactly as long as GetAllUnspent has something to report for it — the
+    record's lifetime follows its OUTPUT LIST, not its total: with `min = 0` an address whose remaining
+    outputs are all worth 0 keeps its record (Value 0). -/
+theorem record_exists_iff_outputs (H : Bytes → Nat) (evs : List Ev) (hadm : AdmissibleRun H State.init evs)
+    (a : Addr) (hon : (run H State.init evs).on = true) :
+    let s := run H State.init evs
+    (aget (a.idx, H a.payload) s.bal).isSome = true ↔ getAllUnspent H s a ≠ [] :=
+  record_iff_nonempty a (inv_all_histories H evs hadm) hon
+
+/-- `min = 0`: EVERY unspent output paying to the address is listed, whatever its value (0 included). -/
+theorem min_zero_lists_every_output (H : Bytes → Nat) (evs : List Ev) (hadm : AdmissibleRun H State.init evs)
+    (a : Addr) (hv : a.idx < 5) (hl : a.payload.length = if a.idx < 3 then 20 else 32)
+    (hon : (run H State.init evs).on = true) (hmin : (run H State.init evs).cfg.min = 0)
+    (r : Rec) (j : Nat) (o : Out) (hr : aget r.key (run H State.init evs).utxo = some r)
+    (ho : outAt r.outs j = some o) (hs : o.script = a.script) :
+    ({ txid := r.txid, vout := j, value := o.value, minedAt := r.inBlock, coinbase := r.coinbase } : Unspent)
+      ∈ getAllUnspent H (run H State.init evs) a := by
+  refine ((balances_eq_projection_keyed H evs hadm a hon).2.1 _).2 ⟨r, o, hr, ho, ?_, ?_, rfl⟩
+  · rw [hmin]; exact Nat.zero_le _
+  · rw [hs]; exact script2idx_script H a hv hl
 
 /-! ### non-vacuity -/
 
@@ -148,5 +193,32 @@ example : Inv exH State.init := inv_init exH
 example : Rel { min := 0, useMapCnt := 0 } exH [] (fun _ => none) := rel_empty _ _
 example : qual { min := 5, useMapCnt := 2 } exH exOut0 (2, 20) := by
   constructor <;> decide +kernel
+
+/-! min = 0 with zero-valued outputs: the address holds a 0-value and a 10-value output; the block spends the
+    10-value one; the total reaches 0 but the record and its zero-valued entry stay (list mode and map mode);
+    spending the zero-valued one as well removes the record. -/
+def zOut0 : Out := { value := 0, script := exScr }
+def zRec : Rec := { txid := List.replicate 32 9, inBlock := 6, coinbase := false, outs := [some zOut0, some exOut0, some zOut0] }
+def zEvs (um : Nat) : List Ev := [.enable 0 um, .add zRec, .del zRec.key [false, true, false]]
+
+example : AdmissibleRun exH State.init (zEvs 5000) := by
+  refine ⟨trivial, ?_, trivial, trivial⟩; (show aget _ _ = none); decide +kernel
+example : (run exH State.init (zEvs 5000)).cfg.min = 0 ∧ (run exH State.init (zEvs 5000)).on = true := by decide +kernel
+example : getAllUnspent exH (run exH State.init (zEvs 5000)) exAddr =
+    [{ txid := List.replicate 32 9, vout := 0, value := 0, minedAt := 6, coinbase := false },
+     { txid := List.replicate 32 9, vout := 2, value := 0, minedAt := 6, coinbase := false }] := by decide +kernel
+example : total exH (run exH State.init (zEvs 5000)) exAddr = 0 ∧
+    (aget (exAddr.idx, exH exAddr.payload) (run exH State.init (zEvs 5000)).bal).isSome = true := by decide +kernel
+example : (getAllUnspent exH (run exH State.init (zEvs 1)) exAddr).length = 2 ∧
+    total exH (run exH State.init (zEvs 1)) exAddr = 0 := by decide +kernel
+example : getAllUnspent exH (run exH State.init (zEvs 3 ++ [.del zRec.key [true, false, false]])) exAddr =
+    [{ txid := List.replicate 32 9, vout := 2, value := 0, minedAt := 6, coinbase := false }] := by decide +kernel
+example : aget (exAddr.idx, exH exAddr.payload)
+    (run exH State.init (zEvs 3 ++ [.del zRec.key [true, false, true]])).bal = none := by decide +kernel
+example : scriptForm exScr = some (2, List.replicate 20 1) := by decide +kernel
+example : ∀ p, scriptForm exOut0.script = some (exAddr.idx, p) → exH p = exH exAddr.payload → p = exAddr.payload := by
+  intro p h _
+  have : scriptForm exOut0.script = some (2, List.replicate 20 1) := by decide +kernel
+  rw [this] at h; cases h; rfl
 
 end GocoinV.Props.C17
